@@ -67,6 +67,13 @@ def hostile_calls():
         meta_format='yaml')
     add('preamble-surrogate', 'preamble', 'inorder', 'write_preamble',
         '\ud800\n')
+    # lone surrogates, incl. the range error handlers such as
+    # "surrogateescape" map back to raw bytes (U+DC80..U+DCFF)
+    for cp in (0xDC80, 0xDCE9, 0xDFFF):
+        for enc in (None, 'latin-1', 'ascii'):
+            kw = {'encoding': enc} if enc else {}
+            add('preamble-surrogate-%04X-%s' % (cp, enc), 'preamble',
+                'inorder', 'write_preamble', 'caf' + chr(cp) + '\n', **kw)
     add('preamble-ascii-e', 'preamble', 'inorder', 'write_preamble', 'é\n',
         encoding='ascii')
     add('preamble-latin-emoji', 'preamble', 'inorder', 'write_preamble',
